@@ -68,6 +68,20 @@ Section ListFacts.
     intros ND. inversion ND as [|y ys NI ND']; subst.
     destruct b as [|z b]; simpl; auto. apply Nat.eqb_neq. intros ->. apply NI. apply in_or_app. right. left. auto.
   Qed.
+
+  Lemma iter_eqb_sym i j : iter_eqb i j = iter_eqb j i.
+  Proof. destruct i, j; simpl; auto. apply Nat.eqb_sym. Qed.
+
+  (* m_ttl_list.erase(begin(), it) where [it] is the begin of the suffix l' of the list: the prefix is destroyed,
+     the suffix stays — also when the prefix is empty (it = begin(): erasing the empty range is the identity) *)
+  Lemma erase_prefix mid l' : NoDup (mid ++ l') ->
+    l_erase_nodes (mid ++ l') (l_begin (mid ++ l')) (l_begin l') = Ok (l', mid).
+  Proof.
+    intros ND. unfold l_erase_nodes. rewrite split_at_begin, (split_at_suffix mid l' ND). reflexivity.
+  Qed.
+
+  Lemma drop_nodes_nil {T} (nodes : list (nat * T)) : drop_nodes [] nodes = nodes.
+  Proof. unfold drop_nodes. induction nodes as [|p r IH]; simpl; auto. f_equal. exact IH. Qed.
 End ListFacts.
 
 Section AssocFacts2.
@@ -89,6 +103,15 @@ Section AssocFacts2.
 
   Lemma assoc_snoc (k : K) (a : A) l : assoc k l = None -> assoc k (l ++ [(k, a)]) = Some a.
   Proof. intros N. rewrite assoc_app, N. simpl. rewrite eqb_rfl. auto. Qed.
+
+  (* writing to a mapped object the value it has *)
+  Lemma setk_same (k : K) (a : A) l : assoc k l = Some a -> setk k a l = l.
+  Proof.
+    induction l as [|[k' a'] r IH]; simpl; auto.
+    destruct (Base.eqb k k') eqn:E; intros Q.
+    - inversion Q; subst. destruct (Base.eqb_spec k k'); [subst; reflexivity | discriminate].
+    - rewrite IH; auto.
+  Qed.
 End AssocFacts2.
 
 Section UtMapBridge.
@@ -164,20 +187,30 @@ Section UtMapBridge.
     destruct (assoc n (ul_nodes s)); [|congruence]. proj. rewrite A. cbn [bind req]. reflexivity.
   Qed.
 
-  (* ---- do_update ---- *)
+  (* ---- do_update: case analysis on the SEMANTIC scrutinees (the map entry of k, its stored list iterator, whether
+     that node is in the list and has an element); then both sides compute.  After the same-list splice to end()
+     the spliced node is the last one (u_splice_end), so re-reading std::prev(end()) and storing it in
+     m_ttl_position (u_prev_end_snoc; the literal machine does it) and leaving m_ttl_position alone are the same
+     state: the iterator still refers to the moved node. ---- *)
+  Ltac look :=
+    repeat first [ progress proj
+                 | progress cbn [bind fst snd req it_store]
+                 | rewrite u_assoc_setk_same
+                 | rewrite u_prev_end_snoc
+                 | match goal with
+                   | H : assoc _ _ = _ |- _ => rewrite H
+                   | H : mem_nat _ _ = _ |- _ => rewrite H
+                   | H : l_splice _ _ _ = _ |- _ => rewrite H
+                   end ].
+
   Lemma g_do_update_ok (s : uml K V) k v ex : req (g_do_update s (Some k) v ex) (ul_do_update s k v ex).
   Proof.
-    unfold g_do_update, ul_do_update, map_ref, map_get, node_of, it_load, node_get.
-    destruct (assoc k (ul_map s)) as [[v0 tp]|] eqn:A; cbn [bind fst snd req]; auto.
-    rewrite A. cbn [bind fst snd req]. proj. repeat (rewrite u_assoc_setk_same, A; cbn [bind fst snd req]).
-    destruct tp as [n|]; cbn [bind req]; auto.
-    unfold l_deref. destruct (mem_nat n (ul_list s)) eqn:M; cbn [bind req]; auto.
-    destruct (assoc n (ul_nodes s)) as [t|] eqn:N; cbn [bind req]; auto. proj.
-    repeat (rewrite u_assoc_setk_same, A; cbn [bind fst snd req]).
-    destruct (l_splice (ul_list s) End (It n)) as [l|] eqn:S; cbn [bind req]; auto. proj.
-    destruct (l_prev l End) as [j|] eqn:P; cbn [bind req]; auto.
-    destruct (l_prev_It _ _ _ P) as [x ->]. cbn [it_store bind]. proj.
-    repeat (rewrite u_assoc_setk_same, A; cbn [bind fst snd req]). rewrite setk_setk. reflexivity.
+    unfold g_do_update, ul_do_update, map_ref, map_get, node_of, it_load, node_get, l_deref.
+    destruct (assoc k (ul_map s)) as [[v0 [n|]]|] eqn:A; look; auto.
+    destruct (mem_nat n (ul_list s)) eqn:M; look; auto.
+    destruct (assoc n (ul_nodes s)) as [t|] eqn:N; look; auto.
+    pose proof (u_splice_end (ul_list s) n (proj1 (u_mem_nat_In _ _) M)) as S. look.
+    rewrite ?setk_setk, ?(setk_same k _ _ A). reflexivity.
   Qed.
 
   (* ---- do_insert: only for a key that is not in the map (do_insert_update calls it on that branch only) ---- *)
@@ -185,7 +218,7 @@ Section UtMapBridge.
     assoc k (ul_map s) = None -> req (g_do_insert s k v ex) (ul_do_insert s k v ex).
   Proof.
     intros A. unfold g_do_insert, ul_do_insert, map_emplace, mit_key, map_ref, map_get. rewrite A. cbn [bind]. proj.
-    rewrite u_prev_end_snoc. cbn [bind it_store]. repeat (rewrite (assoc_snoc k (v, None) _ A); cbn [bind fst snd req]).
+    rewrite ?u_prev_end_snoc. cbn [bind it_store]. repeat (rewrite (assoc_snoc k (v, None) _ A); cbn [bind fst snd req]).
     rewrite (setk_snoc k _ _ _ A). reflexivity.
   Qed.
 
@@ -280,15 +313,17 @@ Section UtMapBridge.
     fold (st m0). change (ul_nodes (st m0)) with nodes.
     destruct (ul_prune_walk (st m0) L m0 now 0) as [[[l' m'] c']|w].
     2:{ destruct G as [w' ->]. simpl. auto. }
-    destruct G as (mid & EL & ->). cbn [bind]. proj.
-    assert (Hs : forall n, In n (keys nodes) -> In n (mid ++ l')) by (intros n I; rewrite <- EL; apply Hiff; exact I).
-    destruct mid as [|y mid].
-    - simpl in EL. subst l'. rewrite iter_eqb_refl. cbn [negb bind req]. unfold st.
-      rewrite keep_all by exact Hs. reflexivity.
-    - subst L. unfold st. proj. cbn [app l_begin]. rewrite (begin_suffix_neq y mid l') by exact ND.
-      cbn [negb]. unfold l_erase_nodes. cbn [split_at iter_eqb]. rewrite Nat.eqb_refl.
-      change (y :: mid ++ l') with ((y :: mid) ++ l'). rewrite split_at_suffix by exact ND.
-      cbn [bind app req]. proj. rewrite (drop_is_keep nodes (y :: mid) l'); auto.
+    destruct G as (mid & EL & ->). cbn [bind]. proj. subst L. unfold st. proj.
+    assert (Hs : forall n, In n (keys nodes) -> In n (mid ++ l')) by (intros n I; apply Hiff; exact I).
+    (* m_ttl_list.erase(ttl_begin, ttl_iter) — guarded by ttl_iter != ttl_begin or not: erasing the empty range
+       is the identity (erase_prefix, drop_nodes_nil) *)
+    pose proof (erase_prefix mid l' ND) as EP. pose proof (drop_is_keep nodes mid l' ND Hs) as DK.
+    destruct mid as [|y mid]; cbn [app l_begin] in *.
+    - pose proof (keep_all nodes l' Hs) as KA.
+      rewrite ?iter_eqb_refl. cbn [negb bind]. rewrite ?EP. cbn [bind]. proj.
+      rewrite ?drop_nodes_nil, ?KA. reflexivity.
+    - pose proof (begin_suffix_neq y mid l' ND) as E1. pose proof E1 as E2. rewrite iter_eqb_sym in E2.
+      rewrite ?E1, ?E2. cbn [negb bind]. rewrite EP. cbn [bind]. proj. rewrite DK. reflexivity.
   Qed.
   (* ---- the public methods.  Each starts with do_prune(now); [good] (the literal machine's representation
      relation with some mid-level state) is what UmLitFacts.v preserves along the calls, and gives wfl. ---- *)
